@@ -717,6 +717,12 @@ def _gen_case(rng, stratum):
         F = rng.randint(1, W - 1)
     style = rng.choice(['comma', 'comma', 'space', 'tab', 'mixed', 'mixed'])
     id_val = rng.randint(1, 3)
+    # distinct ids need not come in ascending order (3,3,1,1,2,2 are three individuals): in a third of the cases the next
+    # id is drawn from a shuffled pool instead of counted upwards
+    id_pool = None
+    if rng.random() < 0.33:
+        id_pool = rng.sample(range(1, 60), 40)
+        id_val = id_pool.pop()
     rows = []
     anchored = False
     for i in range(nrows):
@@ -730,7 +736,10 @@ def _gen_case(rng, stratum):
                 items.append(rng.choice(DROP_TEXT + ['5', '6']))
             elif c['kind'] == 'id':
                 if rng.random() < 0.4:
-                    id_val += rng.randint(1, 3)
+                    if id_pool:
+                        id_val = id_pool.pop()
+                    else:
+                        id_val += rng.randint(1, 3)
                 items.append(str(id_val))
             elif c['drop']:
                 items.append(rng.choice(DROP_TEXT) if rng.random() < 0.7 else gen_token(rng)[0])
